@@ -193,6 +193,12 @@ func OpenRig(path string, o RigOpts) *Rig {
 	if o.ReInit && o.Prepared {
 		cfg.Db.PreparedDb = true
 		cfg.Db.PreparedDbFilePath = preparedStub()
+		// (an installation set up from a prepared file usually sits below the newest checkpoint of
+		// its network for a long while: the checkpoint list of this start ends far above the store)
+		oldCP := config.Checkpoints
+		far := chaincfg.MainNetParams.GenesisHash
+		config.Checkpoints = append(append([]chaincfg.Checkpoint{}, oldCP...), chaincfg.Checkpoint{Height: 1000000, Hash: far})
+		defer func() { config.Checkpoints = oldCP }()
 		if db, err = database.Init(cfg, Quiet()); err != nil {
 			initErr = err
 			db, err = sqlx.Open("sqlite3", fmt.Sprintf("file:%s?_foreign_keys=true&pooling=true", path))
